@@ -38,15 +38,19 @@ def out_hw(h, w, L):
 def gen_conv(rng, c, feature=None):
     k = list(rng.choice(KS))
     dil = [1, 1]
-    f = feature or rng.choice(['plain', 'plain', 'dil0', 'dil1', 'apad', 'astride'])
-    if f == 'dil0':
+    f = feature or rng.choice(['plain', 'plain', 'plain', 'dil0', 'dil0', 'dil1', 'dil1', 'apad', 'apad', 'astride', 'astride', 'dilint'])
+    if f == 'dilint':        # nn.Conv2d(c, c, (k, 1) | (1, k), dilation=d): an int dilation, i.e. d on BOTH axes, one row of taps
+        d_ = rng.choice([2, 3])
+        kk = rng.choice([2, 3])
+        k, dil = ([kk, 1] if rng.random() < 0.5 else [1, kk]), [d_, d_]
+    elif f == 'dil0':
         k, dil = [rng.choice([2, 3]), 1], [rng.choice([2, 3]), 1]
     elif f == 'dil1':
         k, dil = [1, rng.choice([2, 3])], [1, rng.choice([2, 3])]
     pad = [rng.choice([0, 1]) if k[0] > 1 else 0, rng.choice([0, 1]) if k[1] > 1 else 0]
     if f == 'apad':
         pad = rng.choice([[0, 1], [1, 0], [1, 2], [2, 1], [0, 2]])
-    elif f in ('dil0', 'dil1') and rng.random() < 0.6:
+    elif f in ('dil0', 'dil1', 'dilint') and rng.random() < 0.7:
         pad = [dil[0] * (k[0] - 1) // 2 + rng.choice([0, 1]), dil[1] * (k[1] - 1) // 2]
     stride = [1, 1]
     if f == 'astride':
@@ -58,6 +62,32 @@ def gen_conv(rng, c, feature=None):
 
 
 OPT_BITS = [8, 16, 24, 28, 32]
+
+
+def match_refuses(spec):
+    """the combinations MATCHConv2d documents as unsupported (ValueError): dilation != 1 on both axes, or dilation on
+    one axis with more than one tap on the other"""
+    return any((L['dil'][0] != 1 and L['dil'][1] != 1) or (L['dil'][0] != 1 and L['k'][1] != 1) or (L['dil'][1] != 1 and L['k'][0] != 1)
+               for L in spec['layers'])
+
+
+def add_dead_channels(rng, spec):
+    tm = lambda: 10.0 ** rng.uniform(-10, -7.3)
+    for L in spec['layers']:
+        if rng.random() < 0.3:
+            L['tiny'] = [[rng.choice([0, 1]), tm()]]
+            if rng.random() < 0.4:
+                L['zero'] = [2]
+        elif rng.random() < 0.1:
+            L['zero'] = [rng.choice([0, 1])]
+    H = spec['head']
+    if H is not None:
+        if H.get('hidden') and rng.random() < 0.35:
+            H['hidden_tiny'] = [[rng.choice([0, 1]), tm()]]
+            H['hidden_zero'] = [2] if rng.random() < 0.4 else None
+        if rng.random() < 0.2:
+            H['tiny'] = [[rng.choice([0, 1]), tm()]]
+    return spec
 
 
 def make_hot(rng, spec):
@@ -150,6 +180,12 @@ def features(spec):
             fs.add('asym-stride')
         if L['dw']:
             fs.add('depthwise')
+        if L.get('tiny'):
+            fs.add('almost-dead-channel')
+        if L.get('zero'):
+            fs.add('zero-channel')
+        if L['dil'][0] != 1 and L['dil'][1] != 1 and 1 in L['k']:
+            fs.add('int-dilation-single-row-kernel')
         if L['bn']:
             fs.add('bn')
         if not L['bias']:
@@ -164,6 +200,8 @@ def features(spec):
         fs.add('fullyconv')
     else:
         fs.add('pool' if spec['head']['pool'] else 'flatten')
+        if spec['head'].get('hidden_tiny') or spec['head'].get('tiny'):
+            fs.add('almost-dead-channel-linear')
         if spec['head'].get('hidden'):
             fs.add('hidden-linear' + ('' if spec['head'].get('hidden_bias', True) else '-no-bias'))
         if not spec['head']['bias']:
@@ -213,6 +251,8 @@ def oracle_net(res, fail):
     if res['status'] != 'ok':
         if res['status'].startswith('EXC-export'):
             return      # not the property's subject (C03/C13 territory); counted by the caller
+        if be == 'MATCH' and res['status'] == 'EXC:ValueError' and '_check_dil_kernel_combination' in res.get('where', '') and match_refuses(spec):
+            return      # the backend refuses the layer (documented): nothing to compare
         if be == 'MAUPITI' and spec['head'] is None and 'maupiti/nn/conv2d.py' in res.get('where', ''):
             # MAUPITIConv2d as the output layer (skip_requant): its own call site, its own key
             fail('maupiti-final-conv-layer:raises-%s' % res['status'].split(':', 1)[1],
@@ -465,6 +505,10 @@ def run(ctx):
          'layers': [dict(kind='conv', cout=5, k=[3, 3], stride=[1, 1], pad=[1, 1], dil=[1, 1], dw=False, bias=True, bn=True, feat='plain', wmag=2.0, bmag=0.05),
                     dict(kind='conv', cout=5, k=[3, 3], stride=[1, 1], pad=[1, 1], dil=[1, 1], dw=True, bias=True, bn=False, feat='plain', wmag=1.0, bmag=0.05)],
          'head': {'pool': True, 'bias': True, 'out': 3, 'hidden': 8, 'hidden_bias': True, 'bmag': 0.05}},
+        {'seed': 41, 'cin': 3, 'hw': [6, 6], 'wbits': 8, 'abits': 8, 'kwargs': {}, 'shape': 'corpus', 'bias_mode': 'all', 'clip_lo': 0.4, 'clip_hi': 2.0,
+         'layers': [dict(kind='conv', cout=4, k=[3, 3], stride=[1, 1], pad=[1, 1], dil=[1, 1], dw=False, bias=True, bn=False, feat='plain', wmag=1.0, tiny=[[1, 1e-9]], zero=[2]),
+                    dict(kind='conv', cout=4, k=[3, 3], stride=[1, 1], pad=[1, 1], dil=[1, 1], dw=True, bias=True, bn=False, feat='plain', wmag=1.0, tiny=[[0, 3e-8]])],
+         'head': {'pool': False, 'bias': True, 'out': 3, 'hidden': 5, 'hidden_bias': True, 'hidden_tiny': [[1, 2e-10]], 'tiny': [[0, 1e-8]]}},
         {'seed': 15, 'cin': 2, 'hw': [6, 6], 'wbits': 8, 'abits': 8, 'kwargs': {}, 'shape': 'corpus', 'bias_mode': 'all', 'clip_lo': 0.4, 'clip_hi': 8.0,
          'layers': [dict(kind='conv', cout=3, k=[3, 3], stride=[1, 1], pad=[1, 1], dil=[1, 1], dw=False, bias=True, bn=False, feat='plain'),
                     dict(kind='conv', cout=2, k=[3, 3], stride=[1, 1], pad=[0, 0], dil=[1, 1], dw=False, bias=True, bn=False, feat='plain')],
@@ -475,16 +519,19 @@ def run(ctx):
     ]
     specs += corpus
     for i in range(nnet):
-        specs.append(gen_spec(ctx.rng, i))
+        specs.append(add_dead_channels(ctx.rng, gen_spec(ctx.rng, i)))
     jobs = [with_backend(s, be) for s in specs for be in ('MATCH', 'MAUPITI')]
     # MATCH with shift_pos > 24, 8-bit activations and large accumulators (32-bit intermediate exceeded)
     for i in range(6 if ctx.quick else 50):
         jobs.append(with_backend(make_hot(ctx.rng, gen_spec(ctx.rng, 3 * 10 ** 6 + i)), 'MATCH'))
     # declared-unsupported stream: MATCH rejects dilation on both axes / dilation with a 2-D kernel (ValueError by design)
     unsupported = []
-    for i in range(2 if ctx.quick else 8):
+    UNS = [([3, 3], [2, 2], [2, 2]), ([3, 3], [2, 1], [2, 2]), ([1, 3], [2, 2], [0, 2]), ([3, 1], [2, 2], [2, 0]), ([1, 2], [3, 3], [0, 1]),
+           ([1, 3], [3, 3], [0, 3]), ([2, 1], [2, 2], [1, 0]), ([3, 3], [1, 2], [2, 2]), ([1, 3], [2, 2], [0, 0]), ([3, 1], [3, 3], [0, 0])]
+    for i in range(6 if ctx.quick else 20):
         s = gen_spec(ctx.rng, 10 ** 6 + i)
-        s['layers'][0].update(k=[3, 3], dil=[2, 2] if i % 2 == 0 else [2, 1], pad=[2, 2], stride=[1, 1], dw=False)
+        k_, d_, p_ = UNS[i % len(UNS)]
+        s['layers'][0].update(k=k_, dil=d_, pad=p_, stride=[1, 1], dw=False)
         h, w = s['hw']
         okk = True
         for L in s['layers']:
